@@ -110,7 +110,19 @@ def run_history(args):
             refs[ck] = dict(rc=r.returncode, files={k: v[0] for k, v in snap(rd).items()} if r.returncode == 0 else None, stderr=r.stderr[-400:])
             shutil.rmtree(rd, ignore_errors=True)
     # pre-population
-    if prepop:
+    if prepop == "crlf":
+        # the directory holds the output of the first step's command line, converted to CRLF since (unix2dos, a checkout with autocrlf)
+        common.run(priv(nnvg_cmd(sb, lang, dict(steps[0], mode=None, no_overwrite=False), out)), env=common.child_env(), timeout=900)
+        for dp, dn, fn in os.walk(out):
+            for f in fn:
+                p = os.path.join(dp, f)
+                m = stat.S_IMODE(os.lstat(p).st_mode)
+                data = open(p, "rb").read().replace(b"\r\n", b"\n").replace(b"\n", b"\r\n")
+                os.chmod(p, 0o644)
+                with open(p, "wb") as fh:
+                    fh.write(data)
+                os.chmod(p, m)
+    elif prepop:
         first = refs[content_key(steps[0])]["files"] or {}
         rr = random.Random("prepop/%s" % hid)
         for rel in sorted(first):
@@ -224,7 +236,7 @@ def run(ctx):
     jobs = []
     for h in range(nh):
         lang = ["c", "py", "cpp", "html"][h % 4] if not ctx.quick else ["c", "py", "c", "cpp", "py", "html"][h % 6]
-        jobs.append((sb, lang, h, make_history(R), R.random() < 0.5))
+        jobs.append((sb, lang, h, make_history(R), R.choice([False, True, True, "crlf"])))
     # a few fixed histories that every run contains
     fixed = [
         [dict(), dict(mode=0o644), dict(no_overwrite=True), dict(mode=0o400), dict(), dict(omit=True, mode=0o600)],
